@@ -635,13 +635,15 @@ theorem sizePreamble_spec (len : Nat) (ext : Bool) (lbP ubP : Option Int) (pre :
       dsimp only at h
       split at h
       · rename_i hle
-        simp only [Except.ok.injEq, Prod.mk.injEq] at h
-        obtain ⟨h1, h2, h3, h4⟩ := h
-        refine ⟨false, ?_, fun _ => rfl, ?_, ?_, ?_⟩
-        · rw [← h1]
-        · simp [sizeBounds, h2]
-        · simp [sizeBounds, ← h4, h2]
-        · intro _; simp [sizeBounds, h3]
+        split at h
+        · simp [err] at h
+        · simp only [Except.ok.injEq, Prod.mk.injEq] at h
+          obtain ⟨h1, h2, h3, h4⟩ := h
+          refine ⟨false, ?_, fun _ => rfl, ?_, ?_, ?_⟩
+          · rw [← h1]
+          · simp [sizeBounds, h2]
+          · simp [sizeBounds, ← h4, h2]
+          · intro _; simp [sizeBounds, h3]
       · rename_i hle
         split at h
         · simp [err] at h
